@@ -227,4 +227,422 @@ theorem no_raised {s : State} (h : Inv s) (e : Event) : Out.raised ∉ (apply s 
   intro hm
   rcases no_notify_when_dead h e _ hm with h | h <;> exact h
 
+/-! ## qualifying_change -/
+
+/-- the increment filter is `|new − last reported| ≥ increment` -/
+theorem incrTrigger_iff (p inc v : Int) :
+    incrTrigger p inc v = true ↔ inc ≤ ((v - p).natAbs : Int) := by
+  unfold incrTrigger
+  simp only [Bool.or_eq_true, decide_eq_true_eq]
+  omega
+
+/-- analog objects (detection classes with the increment filter): a write of presentValue to
+    an object whose detector is not yet triggered defers `_execute` iff the new value is at
+    least the increment away from the last reported value (before anything was reported:
+    from the value held so far) -/
+theorem qualifying_change_analog {s : State} {o : Nat} {ob : Obj} {d : Det} {c : Crit} (v : Int)
+    (hfind : findObj s o = some ob) (hd : ob.det = some d) (hc : ob.crit = some c)
+    (htp : c.trackPv = true) (hin : c.incr = true) (hnt : d.triggered = false) :
+    (writePv s o v).deferred =
+      s.deferred ++ (if ob.inc ≤ ((v - d.prev.getD ob.pv).natAbs : Int) then [.exec o d.gen] else []) := by
+  unfold writePv
+  rw [hfind]
+  simp only [hd, hc, applyChange, pvChange, htp, hin, hnt, Bool.not_true, Bool.false_eq_true, if_false,
+    if_true]
+  by_cases hq : ob.inc ≤ ((v - d.prev.getD ob.pv).natAbs : Int)
+  · have := (incrTrigger_iff (d.prev.getD ob.pv) ob.inc v).mpr hq
+    simp [this, hq]
+  · have : incrTrigger (d.prev.getD ob.pv) ob.inc v = false := by
+      cases h : incrTrigger (d.prev.getD ob.pv) ob.inc v
+      · rfl
+      · exact (hq ((incrTrigger_iff _ _ _).mp h)).elim
+    simp [this, hq]
+
+/-- other objects: iff the value differs from the one held -/
+theorem qualifying_change_generic {s : State} {o : Nat} {ob : Obj} {d : Det} {c : Crit} (v : Int)
+    (hfind : findObj s o = some ob) (hd : ob.det = some d) (hc : ob.crit = some c)
+    (htp : c.trackPv = true) (hin : c.incr = false) (hnt : d.triggered = false) :
+    (writePv s o v).deferred = s.deferred ++ (if v ≠ ob.pv then [.exec o d.gen] else []) := by
+  unfold writePv
+  rw [hfind]
+  simp only [hd, hc, applyChange, pvChange, plainChange, htp, hin, hnt, Bool.not_true,
+    Bool.false_eq_true, if_false]
+  by_cases hq : v = ob.pv
+  · simp [hq]
+  · have : (ob.pv != v) = true := by simpa using fun e => hq e.symm
+    simp [this, hq]
+
+/-- status flags (every class): iff they differ -/
+theorem qualifying_change_flags {s : State} {o : Nat} {ob : Obj} {d : Det} {c : Crit} (f : Nat)
+    (hfind : findObj s o = some ob) (hd : ob.det = some d) (hc : ob.crit = some c)
+    (htf : c.trackFlags = true) (hnt : d.triggered = false) :
+    (writeFlags s o f).deferred = s.deferred ++ (if f ≠ ob.flags then [.exec o d.gen] else []) := by
+  unfold writeFlags
+  rw [hfind]
+  simp only [hd, hc, applyChange, flagsChange, plainChange, htf, hnt, Bool.not_true,
+    Bool.false_eq_true, if_false]
+  by_cases hq : f = ob.flags
+  · simp [hq]
+  · have : (ob.flags != f) = true := by simpa using fun e => hq e.symm
+    simp [this, hq]
+
+theorem plainChange_triggered {d : Det} (ht : d.triggered = true) (b : Bool) :
+    plainChange d b = (d, false) := by
+  unfold plainChange; simp [ht]
+
+theorem pvChange_triggered {d : Det} (ht : d.triggered = true) (ob : Obj) (c : Crit) (v : Int) :
+    pvChange ob c d v = (d, false) := by
+  unfold pvChange
+  split
+  · rfl
+  · simp [ht]
+
+theorem flagsChange_triggered {d : Det} (ht : d.triggered = true) (ob : Obj) (c : Crit) (f : Nat) :
+    flagsChange ob c d f = (d, false) := by
+  unfold flagsChange
+  split
+  · rfl
+  · exact plainChange_triggered ht _
+
+theorem incChange_triggered {d : Det} (ht : d.triggered = true) (ob : Obj) (c : Crit) (v : Int) :
+    incChange ob c d v = (d, false) := by
+  unfold incChange
+  split
+  · rfl
+  · exact plainChange_triggered ht _
+
+/-- once triggered, further changes in the same instant defer nothing more: one execution,
+    hence one notification per subscription, reports the whole burst -/
+theorem change_defers_once {s : State} {o : Nat} {ob : Obj} {d : Det}
+    (hfind : findObj s o = some ob) (hd : ob.det = some d) (ht : d.triggered = true)
+    (v : Int) (f : Nat) (i : Int) :
+    (writePv s o v).deferred = s.deferred ∧ (writeFlags s o f).deferred = s.deferred ∧
+    (writeInc s o i).deferred = s.deferred := by
+  refine ⟨?_, ?_, ?_⟩
+  · unfold writePv
+    rw [hfind]
+    cases hc : ob.crit with
+    | none => simp [hd, hc, applyChange, setObj]
+    | some c => simp [hd, hc, applyChange, setObj, pvChange_triggered ht]
+  · unfold writeFlags
+    rw [hfind]
+    cases hc : ob.crit with
+    | none => simp [hd, hc, applyChange, setObj]
+    | some c => simp [hd, hc, applyChange, setObj, flagsChange_triggered ht]
+  · unfold writeInc
+    rw [hfind]
+    cases hc : ob.crit with
+    | none => simp [hd, hc, applyChange, setObj]
+    | some c => simp [hd, hc, applyChange, setObj, incChange_triggered ht]
+
+/-- without a detection object (nobody subscribed) a write defers nothing -/
+theorem unsubscribed_object_silent {s : State} {o : Nat} {ob : Obj}
+    (hfind : findObj s o = some ob) (hd : ob.det = none) (v : Int) (f : Nat) :
+    (writePv s o v).deferred = s.deferred ∧ (writeFlags s o f).deferred = s.deferred := by
+  constructor
+  · unfold writePv; rw [hfind]; simp [hd, applyChange, setObj]
+  · unfold writeFlags; rw [hfind]; simp [hd, applyChange, setObj]
+
+/-- object-level "last reported value": whatever sends notifications about an analog object
+    (triggered execution, initial notification, periodic report) records the value it reports -/
+theorem last_reported (now : Nat) (ob : Obj) (d : Det) (only : Option Nat) (h : ob.incr = true) :
+    (sendNotifications now ob d only).1.prev = some ob.pv := by
+  rw [send_fst]; simp [h]
+
+/-! ## notify_exact -/
+
+theorem find_map_self {objs : List Obj} {o : Nat} {ob : Obj} {f : Obj → Obj}
+    (hfind : objs.find? (fun x => x.id == o) = some ob) (hid : ∀ x, (f x).id = x.id) :
+    (objs.map (fun x => if x.id == o then f x else x)).find? (fun x => x.id == o) = some (f ob) := by
+  induction objs with
+  | nil => cases hfind
+  | cons x rest ih =>
+    simp only [List.find?_cons] at hfind
+    simp only [List.map_cons, List.find?_cons]
+    by_cases hx : x.id = o
+    · have hb : (x.id == o) = true := by simpa using hx
+      simp only [hb] at hfind
+      cases hfind
+      simp [hid, hx]
+    · have hb : (x.id == o) = false := by simpa using hx
+      simp only [hb] at hfind
+      simp only [hb, Bool.false_eq_true, if_false]
+      exact ih hfind
+
+theorem findObj_setObj_self {s : State} {o : Nat} {ob : Obj} {f : Obj → Obj}
+    (hfind : findObj s o = some ob) (hid : ∀ x, (f x).id = x.id) :
+    findObj (setObj s o f) o = some (f ob) := find_map_self hfind hid
+
+theorem send_all (now : Nat) (ob : Obj) (d : Det) :
+    (sendNotifications now ob d none).2 = d.subs.map (notifyOf now ob) := by
+  unfold sendNotifications
+  simp only
+  split
+  · rename_i he
+    have : d.subs = [] := by simpa using he
+    simp [this]
+  · rfl
+
+/-- an execution of the (triggered) detector of object `o` emits EXACTLY one notification per
+    record of its subscription list, in list order, and clears the trigger; the list itself is
+    unchanged -/
+theorem notify_exact {s : State} {o : Nat} {ob : Obj} {d : Det}
+    (hfind : findObj s o = some ob) (hd : ob.det = some d) :
+    (runItem s (.exec o d.gen)).2 = d.subs.map (notifyOf s.now ob) ∧
+    ∃ ob' d', findObj (runItem s (.exec o d.gen)).1 o = some ob' ∧ ob'.det = some d' ∧
+      d'.triggered = false ∧ d'.subs = d.subs ∧ ob'.pv = ob.pv ∧ ob'.flags = ob.flags := by
+  simp only [runItem, hfind, hd, bne_self_eq_false, Bool.false_eq_true, if_false]
+  refine ⟨send_all s.now ob d, _, _, findObj_setObj_self hfind (fun _ => rfl), rfl, rfl, ?_, rfl, rfl⟩
+  exact (sameCore_send s.now ob d none).1
+
+/-- … and so does the periodic report of a pulse converter -/
+theorem periodic_exact {s : State} {o t q : Nat} {ob : Obj} {d : Det}
+    (hfind : findObj s o = some ob) (hd : ob.det = some d) :
+    (fireTask s ⟨t, q, .periodic o d.gen⟩).2 = d.subs.map (notifyOf s.now ob) := by
+  simp only [fireTask, hfind, hd, bne_self_eq_false, Bool.false_eq_true, if_false]
+  exact send_all s.now ob d
+
+/-- what a notification carries, in a reachable state: the subscriber and process id of the
+    record, the object, confirmed or not as the record CURRENTLY says, the object's current
+    values, and `remaining = max 1 ⌊(deadline − now)/1 s⌋` (0 if indefinite) -/
+theorem notification_content {s : State} (h : Inv s) {ob : Obj} {d : Det} {c : Sub}
+    (hob : ob ∈ s.objs) (hd : ob.det = some d) (hc : c ∈ d.subs) :
+    notifyOf s.now ob c =
+      .notify c.addr c.pid ob.id c.confirmed ob.pv ob.flags (remainingSpec s.now c : Int) :=
+  notifyOf_ok ob ((h.2 ob hob d hd).subs c hc) (Nat.le_succ _)
+
+/-! ## active_list_exact -/
+
+/-- the value of activeCovSubscriptions lists exactly the listed records: same keys, the
+    confirmed flag and the remaining lifetime of each (never the TypeError branch) -/
+theorem active_list_exact {s : State} (h : Inv s) (a p o : Nat) (cf : Bool) (n : Nat) :
+    (∃ r ∈ activeList s, r.addr = a ∧ r.pid = p ∧ r.obj = o ∧ r.confirmed = cf ∧
+        r.remaining = some (n : Int)) ↔
+    (∃ c, Listed s o c ∧ c.addr = a ∧ c.pid = p ∧ c.confirmed = cf ∧ remainingSpec s.now c = n) := by
+  constructor
+  · rintro ⟨r, hr, rfl, rfl, rfl, rfl, hrem⟩
+    obtain ⟨ob, hob, hr'⟩ := List.mem_flatMap.mp hr
+    unfold objRows at hr'
+    split at hr'
+    · cases hr'
+    · rename_i d hd
+      obtain ⟨c, hc, rfl⟩ := List.mem_map.mp hr'
+      refine ⟨c, ⟨ob, hob, rfl, d, hd, hc⟩, rfl, rfl, rfl, ?_⟩
+      have := remaining_ok ((h.2 ob hob d hd).subs c hc) (Nat.le_succ s.now)
+      simp only at hrem
+      rw [this] at hrem
+      simp only [Option.some.injEq] at hrem
+      omega
+  · rintro ⟨c, ⟨ob, hob, rfl, d, hd, hc⟩, rfl, rfl, rfl, rfl⟩
+    have hm : (⟨c.addr, c.pid, ob.id, c.confirmed, remaining s.now c,
+        if (match ob.crit with | some c => c.trackInc | none => false) = true then some ob.inc else none⟩ : Row)
+        ∈ objRows s.now ob := by
+      unfold objRows
+      rw [hd]
+      exact List.mem_map.mpr ⟨c, hc, rfl⟩
+    exact ⟨_, List.mem_flatMap.mpr ⟨ob, hob, hm⟩, rfl, rfl, rfl, rfl,
+      remaining_ok ((h.2 ob hob d hd).subs c hc) (Nat.le_succ s.now)⟩
+
+/-- no row of the list is the TypeError branch -/
+theorem active_list_remaining {s : State} (h : Inv s) :
+    ∀ r ∈ activeList s, ∃ n : Nat, r.remaining = some (n : Int) := by
+  intro r hr
+  obtain ⟨ob, hob, hr'⟩ := List.mem_flatMap.mp hr
+  unfold objRows at hr'
+  split at hr'
+  · cases hr'
+  · rename_i d hd
+    obtain ⟨c, hc, rfl⟩ := List.mem_map.mp hr'
+    exact ⟨_, remaining_ok ((h.2 ob hob d hd).subs c hc) (Nat.le_succ s.now)⟩
+
+/-! ## ack_then_initial -/
+
+theorem runItems_append (l1 l2 : List Deferred) : ∀ (s : State),
+    runItems s (l1 ++ l2) =
+      ((runItems (runItems s l1).1 l2).1, (runItems s l1).2 ++ (runItems (runItems s l1).1 l2).2) := by
+  induction l1 with
+  | nil => intro s; simp [runItems]
+  | cons it rest ih =>
+    intro s
+    simp only [List.cons_append, runItems, ih, List.append_assoc]
+
+theorem findObj_quiet {lo : Nat} {s s' : State} {o : Nat} {ob : Obj} (hq : Quiet s s') (hi : InvAt lo s)
+    (hfind : findObj s o = some ob) : ∃ ob', findObj s' o = some ob' ∧ ObjCore ob ob' := by
+  obtain ⟨g, e, c⟩ := hq.objs
+  have hm := findObj_mem hfind
+  have hc := c ob hm.1
+  refine ⟨g ob, ?_, hc⟩
+  have hi' := hq.invAt hi
+  apply find_of_mem hi'.1
+  · rw [e]; exact List.mem_map_of_mem hm.1
+  · rw [hc.id]; exact hm.2
+
+theorem find_sid_of_mem {l : List Sub} {c : Sub} (hn : (l.map (·.sid)).Nodup) (hm : c ∈ l) :
+    l.find? (fun x => x.sid == c.sid) = some c := by
+  induction l with
+  | nil => cases hm
+  | cons x rest ih =>
+    simp only [List.map_cons, List.nodup_cons, List.mem_map, not_exists, not_and] at hn
+    rcases List.mem_cons.mp hm with rfl | hm'
+    · simp
+    · have : x.sid ≠ c.sid := fun e => hn.1 c hm' e.symm
+      have hb : (x.sid == c.sid) = false := by simpa using this
+      simp only [List.find?_cons, hb]
+      exact ih hn.2 hm'
+
+/-- the last deferred function is an initial notification for a listed record: draining
+    emits, at the very end, exactly that notification -/
+theorem run_initial_last {s : State} (h : Inv s) {q : List Deferred} {o sid : Nat} {ob : Obj} {d : Det}
+    {c : Sub} (hdq : s.deferred = q ++ [.initial o d.gen sid]) (hfind : findObj s o = some ob)
+    (hd : ob.det = some d) (hc : c ∈ d.subs) (hsid : c.sid = sid) :
+    ∃ pre, (run s).2 = pre ++ [notifyOf s.now ob c] := by
+  unfold run
+  rw [hdq, runItems_append]
+  refine ⟨(runItems { s with deferred := [] } q).2, ?_⟩
+  simp only
+  congr 1
+  have h0 : InvAt (s.now + 1) { s with deferred := [] } := h
+  have hq := quiet_runItems q h0
+  have hfind0 : findObj { s with deferred := [] } o = some ob := hfind
+  obtain ⟨ob', hfind', hcore⟩ := findObj_quiet hq h0 hfind0
+  have hdc := hcore.det
+  rw [hd] at hdc
+  cases hd' : ob'.det with
+  | none => rw [hd'] at hdc; exact hdc.elim
+  | some d' =>
+    rw [hd'] at hdc
+    obtain ⟨hs, hg, _⟩ := hdc
+    have hne : d'.subs.isEmpty = false := by
+      rw [hs]
+      cases hl : d.subs with
+      | nil => rw [hl] at hc; cases hc
+      | cons _ _ => rfl
+    have hfs : d'.subs.find? (fun x => x.sid == sid) = some c := by
+      rw [hs, ← hsid]
+      exact find_sid_of_mem ((h.2 ob (findObj_mem hfind).1 d hd).sids) hc
+    have hnow : (runItems { s with deferred := [] } q).1.now = s.now := hq.now
+    simp only [runItems, runItem, hfind', hd', ← hg, bne_self_eq_false, Bool.false_eq_true, if_false,
+      List.append_nil, sendNotifications, hne, hfs, notifyOf, hnow, hcore.id, hcore.pv, hcore.flags]
+
+theorem remainingSpec_fresh (now L q : Nat) (c : Sub) (hL : L ≠ 0)
+    (hdue : c.due = some (now + L * usPerSec, q)) : remainingSpec now c = L := by
+  unfold remainingSpec
+  rw [hdue]
+  simp only [usPerSec]
+  have : (now + L * 1000000 - now) / 1000000 = L := by omega
+  rw [this]
+  omega
+
+theorem remainingSpec_armed (s : State) (L : Nat) (c : Sub) (hdue : c.due = (armLifetime s L).1) :
+    remainingSpec s.now c = L := by
+  unfold armLifetime at hdue
+  by_cases hL : L = 0
+  · simp only [hL, ne_eq, not_true_eq_false, if_false] at hdue
+    unfold remainingSpec; rw [hdue, hL]
+  · simp only [ne_eq, hL, not_false_eq_true, if_true] at hdue
+    exact remainingSpec_fresh s.now _ _ c hL hdue
+
+/-- the detection object after `Subscription.renew_subscription` on the record `cov` -/
+def renewedDet (s : State) (d : Det) (cov : Sub) (conf : Option Bool) (life : Option Nat) : Det :=
+  { d with subs := renewSubs d.subs cov.sid (life.getD 0) (conf.getD false) (armLifetime s (life.getD 0)).1 }
+
+/-- the renewal branch of `subscribe`, spelled out -/
+theorem subscribe_renew_eq {s : State} {a p o : Nat} {conf : Option Bool} {life : Option Nat}
+    {ob : Obj} {d : Det} {ng : Nat} {cov : Sub}
+    (hfind : findObj s o = some ob) (hcov : ob.supportsCov = true) (hget : getDet s ob = some (d, ng))
+    (hnc : (conf.isNone && life.isNone) = false) (hfs : findSub d.subs a p = some cov) :
+    subscribe s a p o conf life =
+      ({ setObj s o (fun ob => { ob with det := some (renewedDet s d cov conf life) }) with
+          nextGen := ng, seq := (armLifetime s (life.getD 0)).2,
+          deferred := s.deferred ++ [.initial o d.gen cov.sid] }, [.ack a]) := by
+  unfold subscribe renewedDet
+  simp only [hfind, hcov, hget, hnc, hfs, Bool.not_true, Bool.false_eq_true, if_false]
+
+/-- the record a new subscription creates -/
+def newSub (s : State) (a p : Nat) (conf : Option Bool) (life : Option Nat) : Sub :=
+  { addr := a, pid := p, confirmed := conf.getD false, lifetime := life.getD 0,
+    due := (armLifetime s (life.getD 0)).1, sid := s.nextSid }
+
+/-- the new-subscription branch of `subscribe`, spelled out (up to the periodic task) -/
+theorem subscribe_new_eq {s : State} {a p o : Nat} {conf : Option Bool} {life : Option Nat}
+    {ob : Obj} {d : Det} {ng : Nat}
+    (hfind : findObj s o = some ob) (hcov : ob.supportsCov = true) (hget : getDet s ob = some (d, ng))
+    (hnc : (conf.isNone && life.isNone) = false) (hfs : findSub d.subs a p = none) :
+    ∃ pt seq, subscribe s a p o conf life =
+      ({ setObj s o (fun ob => { ob with det := some { d with
+            subs := d.subs ++ [newSub s a p conf life], ptask := pt } }) with
+          nextGen := ng, seq := seq, nextSid := s.nextSid + 1,
+          deferred := s.deferred ++ [.initial o d.gen s.nextSid] }, [.ack a]) := by
+  unfold subscribe newSub
+  simp only [hfind, hcov, hget, hnc, hfs, Bool.not_true, Bool.false_eq_true, if_false]
+  cases armLifetime s (life.getD 0)
+  simp only
+  split <;> exact ⟨_, _, rfl⟩
+
+/-- A SubscribeCOV request (new or renewing, anything but a cancellation) for an object that
+    supports COV is answered by exactly one SimpleAck, and the next drain of the deferred
+    functions ends with the initial notification: to that subscriber and process id, about
+    that object, confirmed or not AS REQUESTED NOW, with the current values and the full
+    requested lifetime as time remaining (0 = indefinite). -/
+theorem ack_then_initial {s : State} (h : Inv s) {a p o : Nat} {conf : Option Bool} {life : Option Nat}
+    {ob : Obj} (hfind : findObj s o = some ob) (hcov : ob.supportsCov = true)
+    (hcrit : ob.det.isSome ∨ ob.crit.isSome)
+    (hnc : (conf.isNone && life.isNone) = false) :
+    (subscribe s a p o conf life).2 = [.ack a] ∧
+    ∃ pre, (run (subscribe s a p o conf life).1).2 =
+      pre ++ [.notify a p o (conf.getD false) ob.pv ob.flags ((life.getD 0 : Nat) : Int)] := by
+  have hinv' : Inv (subscribe s a p o conf life).1 := inv_apply h (.subscribe a p o conf life)
+  have hnow' := subscribe_now s a p o conf life
+  have hobm := findObj_mem hfind
+  -- the detection object exists or can be made
+  obtain ⟨d, ng, hget⟩ : ∃ d ng, getDet s ob = some (d, ng) := by
+    unfold getDet
+    cases hd : ob.det with
+    | some d => exact ⟨d, _, rfl⟩
+    | none =>
+      cases hc : ob.crit with
+      | some c => exact ⟨_, _, rfl⟩
+      | none => simp [hd, hc] at hcrit
+  cases hfs : findSub d.subs a p with
+  | some cov =>
+    have heq := subscribe_renew_eq hfind hcov hget hnc hfs
+    obtain ⟨hcm, hca, hcp⟩ := findSub_some hfs
+    rw [heq] at hinv' hnow' ⊢
+    refine ⟨rfl, ?_⟩
+    -- the renewed record
+    have hc'm : ({ cov with lifetime := life.getD 0, confirmed := conf.getD false,
+                            due := (armLifetime s (life.getD 0)).1 } : Sub) ∈
+        (renewedDet s d cov conf life).subs := by
+      unfold renewedDet renewSubs
+      exact List.mem_map.mpr ⟨cov, hcm, by simp⟩
+    have hf' := findObj_setObj_self (f := fun ob => { ob with det := some (renewedDet s d cov conf life) })
+        hfind (fun _ => rfl)
+    obtain ⟨pre, hpre⟩ := run_initial_last hinv' (q := s.deferred) (o := o) (sid := cov.sid)
+      (d := renewedDet s d cov conf life) rfl hf' rfl hc'm rfl
+    refine ⟨pre, ?_⟩
+    rw [hpre]
+    have hok := (hinv'.2 _ (findObj_mem hf').1 _ rfl).subs _ hc'm
+    rw [notifyOf_ok _ hok (Nat.le_succ _), hnow']
+    have hrem := remainingSpec_armed s (life.getD 0)
+      ⟨cov.addr, cov.pid, conf.getD false, life.getD 0, (armLifetime s (life.getD 0)).1, cov.sid⟩ rfl
+    rw [hrem]
+    simp only [hca, hcp, hobm.2]
+  | none =>
+    obtain ⟨pt, seq, heq⟩ := subscribe_new_eq hfind hcov hget hnc hfs
+    rw [heq] at hinv' hnow' ⊢
+    refine ⟨rfl, ?_⟩
+    have hc'm : newSub s a p conf life ∈ d.subs ++ [newSub s a p conf life] := by simp
+    have hf' := findObj_setObj_self (f := fun ob => { ob with det := some { d with
+        subs := d.subs ++ [newSub s a p conf life], ptask := pt } }) hfind (fun _ => rfl)
+    obtain ⟨pre, hpre⟩ := run_initial_last hinv' (q := s.deferred) (o := o) (sid := s.nextSid)
+      (d := { d with subs := d.subs ++ [newSub s a p conf life], ptask := pt })
+      (c := newSub s a p conf life) rfl hf' rfl hc'm rfl
+    refine ⟨pre, ?_⟩
+    rw [hpre]
+    have hok := (hinv'.2 _ (findObj_mem hf').1 _ rfl).subs _ hc'm
+    rw [notifyOf_ok _ hok (Nat.le_succ _), hnow']
+    have hrem := remainingSpec_armed s (life.getD 0) (newSub s a p conf life) rfl
+    rw [hrem]
+    simp only [hobm.2, newSub]
+
 end BacVerif.C16
